@@ -4,6 +4,7 @@ Tier 2 (correlator operations taken atomically; the clock is the virtual time pa
 each operation).
 -/
 import SmppVerif.Lemmas.Expiry
+import SmppVerif.Lemmas.RcptHistory
 
 namespace SmppVerif.Props.C14
 open SmppVerif SmppVerif.Corr SmppVerif.Lemmas.Corr SmppVerif.Lemmas.Expiry
@@ -102,6 +103,28 @@ example :
     (put (put s0 15461 e).1 15470 { e with seq := 7 }).2 = [] := by
   decide +kernel
 
+/-! ### history level (unsegmented requests amid arbitrary traffic) -/
+
+open SmppVerif.Lemmas.History SmppVerif.Lemmas.RcptHistory in
+/-- NEVER EARLY over histories: from the moment an unsegmented submit_sm is stored, whatever requests are stored,
+    responses to other requests handled and deliver_sm handled — every one of them running the sweep — nothing
+    is reported for it (no time-out, no outcome at all) as long as no operation comes later than its time-to-live
+    and its own response has not arrived. -/
+theorem nothing_reported_before_ttl (L q : Nat) (m : Msg) (pm : Plain L q m) (ttlR ttlD t : Nat) (pre post : List Op)
+    (hc : ∀ op ∈ pre ++ post, Clean L q op) (hcalm : ∀ op ∈ post, Calm q t ttlR op) :
+    (runOps L (initState ttlR ttlD) (pre ++ Op.put t m :: post)).2 = 0 :=
+  Lemmas.RcptHistory.never_early L q m pm ttlR ttlD t pre post hc hcalm
+
+open SmppVerif.Lemmas.History in
+/-- EXACTLY ONCE, BY THE NEXT REQUEST over histories: if no response carrying its number ever arrives, the request
+    is reported exactly once as soon as any request is stored (a keep-alive probe included) or any response handled
+    after its time-to-live — and never again, however long the history goes on. -/
+theorem unanswered_reported_exactly_once (L q : Nat) (m : Msg) (pm : Plain L q m) (ttlR ttlD t : Nat)
+    (pre post : List Op) (hc : ∀ op ∈ pre ++ post, Clean L q op)
+    (hno : ∀ op ∈ post, GoodResp q op) (hsettle : ∃ op ∈ post, Settles q t ttlR op) :
+    (runOps L (initState ttlR ttlD) (pre ++ Op.put t m :: post)).2 = 1 :=
+  (plain_ledger (∀ op ∈ post, GoodResp q op) L q m pm ttlR ttlD t pre post hc (fun g => g)).2 hno hsettle
+
 end SmppVerif.Props.C14
 
 #print axioms SmppVerif.Props.C14.put_is_sweep_then_store
@@ -111,3 +134,5 @@ end SmppVerif.Props.C14
 #print axioms SmppVerif.Props.C14.reported_by_next_put
 #print axioms SmppVerif.Props.C14.expired_is_removed
 #print axioms SmppVerif.Props.C14.answered_not_timed_out
+#print axioms SmppVerif.Props.C14.nothing_reported_before_ttl
+#print axioms SmppVerif.Props.C14.unanswered_reported_exactly_once
